@@ -393,6 +393,10 @@ def p_c20(run):
         full = argv + files
         if kind == "valid" and rng.random() < 0.2: full = files[:1] + argv + files[1:]      # getopt permutes
         exe = os.path.join(d, "examples", "skinny-" + tool)
+        # the output name may already exist and be LONGER than what is about to be written: the tools must replace it, not
+        # write into it (valid invocations only: for invalid ones "no output produced" is judged by the file's existence)
+        if kind == "valid" and idx % 3 == 1:
+            open(outp, "wb").write(bytes([0xEE]) * (len(data) + 333))
         p = subprocess.run([exe] + full, capture_output=True, timeout=60)
         got = open(outp, "rb").read() if os.path.exists(outp) else None
         run.stats["ops"] += 1; run.stats["scripts"] += 1; run.stats["oracle_checks"] += 1
